@@ -228,6 +228,11 @@ func runLife(p lifeParams) *scen.Outcome {
 			}
 		}
 	}
+	if cl != nil && p.idx%4 == 1 {
+		// a routing pause that is still pending when the Client is closed
+		cl.Fallback(20 * time.Second)
+		time.Sleep(350 * time.Millisecond)
+	}
 	// let a few housekeeping ticks happen
 	time.Sleep(time.Duration(100+rand.New(rand.NewSource(p.seed)).Intn(6000)) * time.Millisecond)
 	synctest.Wait()
